@@ -268,6 +268,9 @@ func doRunSeed(t *testing.T) {
 	rec := execute(t, h, *fProp, *fTier, seed, cfg, simCfg, simrt.NewSearch(splitmix(seed^0xabcdef)), true)
 	rf := mkReplay(rec, cfg)
 	rf.Schedule, rf.Events = tail(rec.Trace, 400), tail(rec.Events, 400)
+	if os.Getenv("VERIF_FULLTRACE") == "1" {
+		rf.Schedule = rec.Trace
+	}
 	if rec.Panic != "" {
 		rf.Class, rf.Detail = "harness-panic", rec.Panic
 	}
